@@ -291,7 +291,6 @@ struct FsWorld {
     done = true;
     std::map<std::string, std::string> f = {{"m", "include \"n\" PROGRAM f IN a OUT b DO b := a + 1 END DEFINE sw <ID> AS #0 := $0 END DEFINE x := RUN f WITH 2 END; sw x; IF x = 1 THEN GOTO l; l: LOOP x DO x := x - 1 END; WHILE x != 0 DO STOP END; y := 99999999999 z"}, {"n", "k := 1;"}};
     { CodegenResult r = Theo::compile(f, "m"); (void)r; }
-    { CodegenResult r = Theo::compile(f, "absent main file"); (void)r; }
     { std::string s = std::to_string(12345) + std::to_string(-1); (void)s; }
   }
 
